@@ -32,7 +32,7 @@ func runExtra(cmd string, args []string) error {
 		return cmdLexReplay(args)
 	}
 
-	return fmt.Errorf("unknown command %q", cmd)
+	return runSched(cmd, args)
 }
 
 func cmdRandom(args []string) error {
